@@ -47,6 +47,10 @@ def build(mod, agg: dict, *, tier: str, seed: int, wall_s: float, n_viol: int, r
 
 def write(prop: str, ev: dict) -> str:
     d = os.path.join(VERIF, "evidence")
+    if os.environ.get("VERIF_REPO_SRC"):
+        # a development run against a scratch copy of the repository (a seeded change, a mutant): its evidence does not
+        # describe /repo and must never land in the committed evidence directory
+        d = os.path.join("/dev/shm" if os.path.isdir("/dev/shm") else os.environ.get("TMPDIR", "/tmp"), "verif-evidence-scratch")
     os.makedirs(d, exist_ok=True)
     path = os.path.join(d, f"{prop}.json")
     try:
